@@ -231,7 +231,15 @@ func (s *Server) Sockets() []ServerSocket {
 //
 // Alias of: s.Of("/").FetchSockets(...)
 func (s *Server) FetchSockets(room ...string) []adapter.Socket {
-	return s.Of("/").FetchSockets()
+	if len(room) == 0 {
+		return s.Of("/").FetchSockets()
+	}
+	// The sockets of the given rooms only.
+	rooms := make([]Room, len(room))
+	for i, r := range room {
+		rooms[i] = Room(r)
+	}
+	return s.Of("/").In(rooms...).FetchSockets()
 }
 
 // Makes the matching socket instances leave the specified rooms.
